@@ -204,6 +204,20 @@ CLAIMED['C17'] = (
     'solver-chosen; outcomes must be equal from the first call on.',
     'three systems; nesting depth <= 3; typing internals run concretely',
     'symbolic execution of the real code (CrossHair primitives + z3), differential between two generated declarations, path-tree exhaustion, concrete replay')
+CLAIMED['C20'] = (
+    'Schedules as solver variables (engine E3, vt/sched.py): real threads execute real utype calls under a hand-off scheduler that '
+    'parks every worker at each line boundary of the watched functions (BaseParser.__call__ / resolve_forward_refs / apply_for, '
+    'FunctionParser / ParserField / Rule / LogicalType.resolve_forward_refs, register_forward_ref, TypeRegistry.register / resolve); '
+    'the controller decides continue / switch with solver booleans, so the E1 search tree IS the schedule tree and its exhaustion '
+    'means that every schedule within the bound was executed; exactly one thread runs at a time, so every counterexample is a '
+    'replayable decision vector. Scenarios: first parse of a class with pending forward references (two threads, valid / invalid '
+    'inputs), nested first use, function-local classes, first call of a decorated function with forward-referenced annotations, and '
+    'registrations racing conversions in the shared converter registry (linearizability against both sequential orders). '
+    'Assertion: every thread returns what its call returns alone on a fresh identical system.',
+    'bounded: 2 threads, 1 preemption (2 thorough) + the hand-over at thread end, preemption only at watched line boundaries; a thread '
+    'that does not report within 0.15 s while holding the turn is treated as blocked on a lock (the repaired library serialises the '
+    'lazy resolution); the solver role is bookkeeping of the schedule tree -- thin, and said so',
+    'schedule exploration with thread schedules as solver variables (CrossHair StateSpace + z3 decisions over a deterministic hand-off scheduler), tree exhaustion, concrete replay')
 NOT_APPLICABLE = {}
 
 def main():
